@@ -29,13 +29,19 @@ NSPOOL = [("http://e/", "ex"), ("http://f/", "f"), ("http://www.wikidata.org/ent
 D = os.path.join(core.WORK, "c10")
 
 FINDINGS = {"nonIri_answer": "C10-F1", "same_shape_name": "C10-F5", "tau_literal": "C10-F6",
-            "repeated_statement": "C10-F7", "at_in_label": "C10-F8", "prefix_in_local": "C10-F9"}
+            "repeated_statement": "C10-F7", "at_in_label": "C10-F8", "prefix_in_local": "C10-F9",
+            "sparql_kw_in_query": "C10-F10"}
 # which root causes may explain which kind of oracle failure
-EXPLAINS = {"raised": ["at_in_label", "tau_literal"],
-            "instances": ["nonIri_answer", "prefix_in_local", "at_in_label"],
+EXPLAINS = {"raised": ["at_in_label", "tau_literal", "sparql_kw_in_query"],
+            "instances": ["nonIri_answer", "prefix_in_local", "at_in_label", "sparql_kw_in_query"],
             "text-raised": ["nonIri_answer", "tau_literal"],
             "repeated": ["repeated_statement"],
-            "text": ["nonIri_answer", "repeated_statement", "same_shape_name", "prefix_in_local", "at_in_label"]}
+            "text": ["nonIri_answer", "repeated_statement", "same_shape_name", "prefix_in_local", "at_in_label",
+                     "sparql_kw_in_query"]}
+# IRIs holding the keyword of the SPARQL selectors (a predicate, a node, a class): legal everywhere
+KW_PROPS = ["http://e/SPARQLstatus", "http://e/pSPARQL"]
+KW_NODES = ["http://e/nSPARQL", "http://e/SPARQLn7"]
+KW_CLASS = "http://e/SPARQLThing"
 
 
 # ---------------------------------------------------------------------------------------------
@@ -242,6 +248,16 @@ def gen_graph(r):
     props = ["http://e/p%d" % i for i in range(r.randint(1, 3))]
     if r.random() < 0.25:
         props += r.sample(["http://e/p:q", "http://e/p", "http://e/p.r-s"], r.randint(1, 2))
+    if r.random() < 0.2:                        # names holding the keyword 'SPARQL' (and their twins without it)
+        k = r.random()
+        if k < 0.6:
+            props += r.sample(KW_PROPS, r.randint(1, 2)) + (["http://e/status"] if r.random() < 0.5 else [])
+        if k > 0.4:
+            nodes += [["I", x] for x in r.sample(KW_NODES, r.randint(1, 2))] + ([["I", "http://e/n7"]] if r.random() < 0.5 else [])
+        if r.random() < 0.4:
+            classes.append(KW_CLASS)
+            if r.random() < 0.5:
+                classes.append("http://e/Thing")
     G = []
     for tp in typing:
         dens = r.choice([0.25, 0.4, 0.6])
@@ -274,6 +290,12 @@ def gen_graph(r):
 SPARQL_KW = ["select", "SELECT", "Select"]
 
 
+def _prefer_kw(r, pool):
+    """half of the time, when the pool holds names with the keyword 'SPARQL', one of those"""
+    kw = [x for x in pool if "SPARQL" in (x[1] if isinstance(x, list) else x)]
+    return r.choice(kw) if kw and r.random() < 0.5 else r.choice(pool)
+
+
 def gen_sparql(r, ns, G, typing, classes, nodes, props):
     def term(iri):
         t = mkref(r, iri, ns, False)
@@ -282,13 +304,14 @@ def gen_sparql(r, ns, G, typing, classes, nodes, props):
     k = r.random()
     v = r.choice(["x", "s", "node"])
     if k < 0.4:
-        struct = [["v", v], ["a"] if r.random() < 0.5 else term(r.choice(typing)), term(r.choice(classes)), v, False]
+        struct = [["v", v], ["a"] if r.random() < 0.5 else term(r.choice(typing)), term(_prefer_kw(r, classes)), v, False]
     elif k < 0.7:
-        struct = [["v", v], term(r.choice(props + typing)), ["v", "o"], v, r.random() < 0.5]
+        struct = [["v", v], term(_prefer_kw(r, props + typing)), ["v", "o"], v, r.random() < 0.5]
     elif k < 0.85:
-        struct = [term(r.choice(nodes)[1]) if r.choice(nodes)[0] == "I" else ["v", "w"], term(r.choice(props)), ["v", v], v, False]
+        n = _prefer_kw(r, nodes)
+        struct = [term(n[1]) if n[0] == "I" else ["v", "w"], term(_prefer_kw(r, props)), ["v", v], v, False]
     else:
-        struct = [["v", "w"], term(r.choice(props)), ["v", v], v, True]
+        struct = [["v", "w"], term(_prefer_kw(r, props)), ["v", v], v, True]
 
     def show(t):
         return "?" + t[1] if t[0] == "v" else ("a" if t[0] == "a" else show_ref(t))
@@ -499,6 +522,23 @@ def concrete(case):
     return c
 
 
+_KW_ONCE = None
+
+
+def sparql_kw_once():
+    """does NodeSelectorParser._parse_sparql_expression remove the leading keyword only (replace(kw, '', 1))?
+    Read from the Gen/Consts.v that core.build has just regenerated from the code under test (None: flag missing)."""
+    global _KW_ONCE
+    if _KW_ONCE is None:
+        try:
+            with open(os.path.join(core.ROCQ, "theories", "Gen", "Consts.v")) as f:
+                m = re.search(r"^Definition c_sel_sparql_strip_once : bool := (true|false)\.$", f.read(), re.M)
+        except OSError:
+            m = None
+        _KW_ONCE = (m.group(1) == "true") if m else "missing"
+    return None if _KW_ONCE == "missing" else _KW_ONCE
+
+
 def sparql_bodies(c):
     """query texts the parser will hand to prepareQuery (glue: mirrors replace/strip/[1:-1])"""
     sels = []
@@ -516,7 +556,7 @@ def sparql_bodies(c):
     for s in sels:
         s = s.strip()
         if s.startswith("SPARQL"):
-            b = s.replace("SPARQL", "").strip()
+            b = (s.replace("SPARQL", "", 1) if sparql_kw_once() else s.replace("SPARQL", "")).strip()
             if len(b) >= 1 and b[0] in "'\"" and b[-1] in "'\"":
                 out.append(b[1:-1])
     return out
@@ -1283,6 +1323,9 @@ def run(tier, seed, replay=None):
         "impl_outcomes": dict(res["outcomes"]), "raised_outside_dom": dict(res["raised"]),
         "known_finding_hits": dict(res["known_hits"]),
         "unprefix_replace_once": flags,
+        "sparql_keyword_removed_once": sparql_kw_once(),
+        "sparql_selectors_holding_the_keyword": sum(1 for c in cases if c["kind"] == "ast" for sel, _ in (c["tg"]["items"] or [])
+                                                    if sel[0] == "sq" and "SPARQL" in sel[1]),
         "names_repeating_their_prefix": dict(res["repeat_names"]),
         "documents_with_literals_spelled_like_a_class_iri": dict(res["class_literals"]),
         "disagreements_model_vs_impl": len(res["corr_fail"]),
